@@ -40,6 +40,7 @@ func main() {
 	commands["c18"] = runC18
 	commands["c11"] = runC11
 	commands["c07"] = runC07
+	commands["c06"] = runC06
 	commands["c17"] = runC17
 	commands["c14hash"] = func(a []string) { initCollisions(); runC14Hash(a) }
 	registerMore()
